@@ -54,6 +54,23 @@ def key_of(e, d, loopkeys):
     return None
 
 
+def _param_names(m, dict_node, v, params):
+    """the method parameters a dict value is made of (local names for `X if X is not None else empty` written out)"""
+    names = [z.id for z in ast.walk(v) if isinstance(z, ast.Name) and z.id in params]
+    if names:
+        return names
+    try:
+        import copy as _copy
+        pm = astq.parent_map(m.node)
+        st = astq.enclosing(pm, dict_node, (ast.stmt,))
+        if st is not None:
+            x = astq.expr_at(m, st, _copy.deepcopy(v))
+            return [z.id for z in ast.walk(x) if isinstance(z, ast.Name) and z.id in params]
+    except Exception:
+        pass
+    return []
+
+
 def presence_tests(test, d, fi=None, at=None):
     """keys (constants or variable names) known present when `test` is TRUE / known present when it is FALSE"""
     t_true, t_false = set(), set()
@@ -498,12 +515,15 @@ def validated(prog, run):
         for m in prog.classes[cq].methods.values():
             params = set(astq.params_of(m.node)[0])
             for dn in ast.walk(m.node):
-                if isinstance(dn, ast.Dict) and dn.keys and all(isinstance(k, ast.Constant) and isinstance(k.value, str) for k in dn.keys):
-                    keys = {k.value for k in dn.keys}
+                if isinstance(dn, ast.Dict) and dn.keys and all(k is None or (isinstance(k, ast.Constant) and isinstance(k.value, str)) for k in dn.keys) \
+                        and any(k is not None for k in dn.keys):
+                    keys = {k.value for k in dn.keys if k is not None}
                     for fn_, sh_ in sheets_of_fn.items():
                         if keys <= sh_ and len(keys) >= 3 and not any(keys <= o_ and o_ != sh_ and len(o_) < len(sh_) for o_ in sheets_of_fn.values()):
                             for k, v in zip(dn.keys, dn.values):
-                                names = [z.id for z in ast.walk(v) if isinstance(z, ast.Name) and z.id in params]
+                                if k is None:
+                                    continue
+                                names = _param_names(m, dn, v, params)
                                 if names:
                                     arg_of_sheet_fn.setdefault(fn_, {})[k.value] = names[0]
     for cq in [q for q in prog.classes if q.endswith("geometry.mixin.GeometryMixin")]:
@@ -515,9 +535,13 @@ def validated(prog, run):
             # sheet -> argument of this method (from the dict literal handed to the validation)
             arg_of_sheet = {}
             for dn in ast.walk(m.node):
-                if isinstance(dn, ast.Dict) and dn.keys and all(isinstance(k, ast.Constant) and isinstance(k.value, str) for k in dn.keys):
+                if isinstance(dn, ast.Dict) and dn.keys and all(k is None or (isinstance(k, ast.Constant) and isinstance(k.value, str)) for k in dn.keys):
+                    if not any({k.value for k in dn.keys if k is not None} <= sh_ for sh_ in sheets_of_fn.values()):
+                        continue        # a dict keyed by something else than sheet names (e.g. by the fields of the geometry object)
                     for k, v in zip(dn.keys, dn.values):
-                        names = [z.id for z in ast.walk(v) if isinstance(z, ast.Name) and z.id in params]
+                        if k is None:
+                            continue
+                        names = _param_names(m, dn, v, params)
                         if names:
                             arg_of_sheet[k.value] = names[0]
             for c, r in prog.calls_in(m):
